@@ -1125,7 +1125,8 @@ namespace awkward {
         std::make_shared<RecordArray>(Identities::none(),
                                       util::Parameters(),
                                       contents,
-                                      recordlookup_));
+                                      recordlookup_,
+                                      length_));
     }
   }
 
